@@ -19,7 +19,7 @@ RULE = ("byte streams built from line tokens over {ASCII, blank, tab, Ã©, ä¸­, ð
 ASSUMPTIONS = [
     "String::from_utf8_lossy = one U+FFFD per maximal invalid prefix (Lean lossyImpl; cross-checked on every case, no theorem depends on it)",
     "under --ansi only `ESC [ params final` sequences, unterminated `ESC`, `ESC [`, `ESC [ params` at the very end of a line, and the C0 bytes NUL/TAB/LF/CR are generated; stripAnsiImpl models the ANSI parser for that grammar only (full tokenizer: C16)",
-    "queries are empty or 1-2 lower-case ASCII letters (verdict = ASCII-case-folded in-order subsequence; matching rules: C03); with --nth/--with-nth only the empty query",
+    "queries are empty or 1-2 lower-case ASCII letters (verdict = ASCII-case-folded in-order subsequence; matching rules: C03); with --with-nth only the empty query; with --nth a query only for the literal delimiter `,` (field ranges on the ITEM text â€” the stripped text under --ansi â€” by the C12 field model)",
     "crossbeam bounded channel is FIFO and lossless; the OS pipe delivers bytes in order",
 ]
 TRUSTED = [
@@ -135,6 +135,25 @@ def gen(rng, tier, n):
             for _ in range(rng.randint(1, 4)):
                 fs = ["".join(rng.choice(["61", "62", "63", "78", "c3a9"]) for _ in range(rng.randint(1, 2))) for _ in range(rng.randint(1, 4))]
                 toks.append(d.join(fs))
+                toks.append("%02x" % term)
+            if rng.random() < 0.3:
+                toks.pop()
+        if cli and rng.random() < 0.3:
+            # directed: --nth with a query (literal delimiter `,`, no --with-nth), with and without --ansi: lines of 1..4 short
+            # fields; escape sequences in front of / inside fields, so that field ranges taken on the unstripped line differ
+            wn, nth, delim, close = "_", rng.choice(FIELDS), "2c", "_"
+            ansi = rng.random() < 0.6
+            query = rng.choice(["61", "62", "78", "6162", "-"])
+            toks = []
+            for _ in range(rng.randint(1, 6)):
+                fs = []
+                for _ in range(rng.randint(1, 4)):
+                    f = "".join(rng.choice(["61", "62", "78", "41", "7a", "c3a9", "20"]) for _ in range(rng.randint(0, 3)))
+                    if rng.random() < 0.4:
+                        e = rng.choice(ESCS)
+                        f = rng.choice([e + f, f + e, e + f + "1b5b306d"])
+                    fs.append(f)
+                toks.append("2c".join(fs) or "61")
                 toks.append("%02x" % term)
             if rng.random() < 0.3:
                 toks.pop()
